@@ -101,6 +101,23 @@ def getPath : Val → List String → Option Val
     | some w => getPath w p
     | none => none
 
+/-! Python `==` on contexts, type-strict on scalars (`True` and `1` differ, as they do for `to_string`):
+two dictionaries are equal when every item of the first is in the second with an equal value and every
+key of the second is a key of the first.  Executable counterpart of the relation `DictEq` of the theorem
+files; compared with the harness's strict equality of Python values. -/
+mutual
+def pyEq : Val → Val → Bool
+  | .leaf a, .leaf b => a == b
+  | .dict ea, .dict eb => subEq ea eb && eb.all (fun e => (lookup ea e.1).isSome)
+  | _, _ => false
+def subEq : Entries → Entries → Bool
+  | [], _ => true
+  | (k, v) :: r, eb =>
+    (match lookup eb k with
+     | some w => pyEq v w
+     | none => false) && subEq r eb
+end
+
 /-! ## Splitting dotted strings -/
 
 /-- Python `s.split('.')` on the characters of `s` (never empty) -/
